@@ -76,6 +76,7 @@ type art struct {
 	total0, found              bool
 	argName, entName, entOwner string
 	mode                       uint8
+	modified                   int32 // the entry's Modified
 	exists                     bool
 }
 
@@ -107,9 +108,9 @@ func (b brd) tokens(p string) string {
 }
 
 func (r row) facts() string {
-	return fmt.Sprintf("id=%s ul=%x ud=%d ub=%d uo=%s uf=%d %s %s a0=%s af=%s an=%s ae=%s ao=%s am=%d ax=%s cd=%s pt=%d",
+	return fmt.Sprintf("id=%s ul=%x ud=%d ub=%d uo=%s uf=%d %s %s a0=%s af=%s an=%s ae=%s ao=%s am=%d at=%d ax=%s cd=%s pt=%d",
 		hexs(r.id), r.ul, r.ud, r.ub, b01(r.uo), r.uf, r.s.tokens("s"), r.t.tokens("t"),
-		b01(r.a.total0), b01(r.a.found), hexs(r.a.argName), hexs(r.a.entName), hexs(r.a.entOwner), r.a.mode, b01(r.a.exists), r.cd, r.pt)
+		b01(r.a.total0), b01(r.a.found), hexs(r.a.argName), hexs(r.a.entName), hexs(r.a.entOwner), r.a.mode, r.a.modified, b01(r.a.exists), r.cd, r.pt)
 }
 
 // cdActive: the time part of the cool-down word lies in the future.
@@ -266,7 +267,7 @@ func pBoard(p string, ts []string) (b brd, ok bool) {
 }
 
 func pRow(ts []string) (r row, ok bool) {
-	if len(ts) != 33 {
+	if len(ts) != 34 {
 		return r, false
 	}
 	var v string
@@ -352,13 +353,19 @@ func pRow(ts []string) (r row, ok bool) {
 		return
 	}
 	r.a.mode = uint8(n)
-	if v, ok = kv("ax", ts[30]); !ok {
+	if v, ok = kv("at", ts[30]); !ok {
+		return
+	}
+	if r.a.modified, ok = pI32(v); !ok {
+		return
+	}
+	if v, ok = kv("ax", ts[31]); !ok {
 		return
 	}
 	if r.a.exists, ok = pBool(v); !ok {
 		return
 	}
-	if v, ok = kv("cd", ts[31]); !ok {
+	if v, ok = kv("cd", ts[32]); !ok {
 		return
 	}
 	switch v {
@@ -367,7 +374,7 @@ func pRow(ts []string) (r row, ok bool) {
 	default:
 		return r, false
 	}
-	if v, ok = kv("pt", ts[32]); !ok {
+	if v, ok = kv("pt", ts[33]); !ok {
 		return
 	}
 	if n, ok = pNat(v, 2, 15); !ok {
@@ -470,13 +477,14 @@ const fillerName = "M.1400000000.A.001"
 
 var articleBody = []byte("\xa7@\xaa\xcc: other (x) \xac\xdd\xaaO: vsrc\n\xbc\xd0\xc3D: a title\n\xae\xc9\xb6\xa1: Thu Jan  1 00:00:00 2015\n\nbody line\n\n--\n")
 
-func mkHeader(name, owner string, mode uint8) *ptttype.FileHeaderRaw {
+func mkHeader(name, owner string, mode uint8, modified int32) *ptttype.FileHeaderRaw {
 	h := &ptttype.FileHeaderRaw{}
 	copy(h.Filename[:], name)
 	copy(h.Owner[:], owner)
 	copy(h.Date[:], " 1/01")
 	copy(h.Title[:], "a title")
 	h.Filemode = ptttype.FileMode(mode)
+	h.Modified = types.Time4(modified)
 	return h
 }
 
@@ -552,10 +560,10 @@ func materialise(r row, word types.Time4, setWord bool) *ptttype.UserecRaw {
 	dir, err := os.Create(filepath.Join(d, ".DIR"))
 	must(err)
 	if !r.a.total0 {
-		must(types.BinaryWrite(dir, binary.LittleEndian, mkHeader(fillerName, "other", 0)))
+		must(types.BinaryWrite(dir, binary.LittleEndian, mkHeader(fillerName, "other", 0, 0)))
 		must(os.WriteFile(filepath.Join(d, fillerName), articleBody, 0o644))
 		if r.a.found {
-			must(types.BinaryWrite(dir, binary.LittleEndian, mkHeader(r.a.entName, r.a.entOwner, r.a.mode)))
+			must(types.BinaryWrite(dir, binary.LittleEndian, mkHeader(r.a.entName, r.a.entOwner, r.a.mode, r.a.modified)))
 		}
 	}
 	must(dir.Close())
@@ -660,6 +668,17 @@ var theIP = func() *ptttype.IPv4_t {
 	return ip
 }()
 
+// uidOf: the slot of the accounts the histories use.
+func uidOf(u *ptttype.UserecRaw) ptttype.UID {
+	switch types.CstrToString(u.UserID[:]) {
+	case "SYSOP":
+		return 1
+	case "CodingMan":
+		return 2
+	}
+	return theUID
+}
+
 // callOp runs the real operation.
 func callOp(op string, r row, u *ptttype.UserecRaw) string {
 	sID, sBid := bid2id(r.s.name), bidOf(r.s.name)
@@ -672,19 +691,24 @@ func callOp(op string, r row, u *ptttype.UserecRaw) string {
 			_, err := ptt.NewPost(u, theUID, sID, sBid, []byte("test"), []byte("hello"), [][]byte{[]byte("line 1"), []byte("line 2")}, theIP, nil)
 			return errClass(err)
 		case "recommend":
-			_, _, err := ptt.Recommend(u, theUID, sID, sBid, fn, ptttype.COMMENT_TYPE_RECOMMEND, []byte("nice"), theIP, nil)
+			_, _, err := ptt.Recommend(u, uidOf(u), sID, sBid, fn, ptttype.COMMENT_TYPE_RECOMMEND, []byte("nice"), theIP, nil)
 			return errClass(err)
 		case "editpost":
-			sum := cmsys.Fnv64Buf(articleBody, len(articleBody), cmsys.FNV1_64_INIT)
+			// the client edits what it has read: length and hash of the article file as it is now
+			body := articleBody
+			if cur, err := os.ReadFile(filepath.Join(boardDir(r.s.name), r.a.argName)); err == nil {
+				body = cur
+			}
+			sum := cmsys.Fnv64Buf(body, len(body), cmsys.FNV1_64_INIT)
 			lines := [][]byte{}
-			for _, l := range strings.Split(strings.TrimSuffix(string(articleBody), "\n"), "\n") {
+			for _, l := range strings.Split(strings.TrimSuffix(string(body), "\n"), "\n") {
 				lines = append(lines, []byte(l))
 			}
 			lines = append(lines, []byte("edited"))
-			_, _, _, err := ptt.EditPost(u, theUID, sID, sBid, fn, nil, nil, lines, len(articleBody), sum, theIP, nil)
+			_, _, _, err := ptt.EditPost(u, uidOf(u), sID, sBid, fn, nil, nil, lines, len(body), sum, theIP, nil)
 			return errClass(err)
 		case "crosspost":
-			_, _, _, err := ptt.CrossPost(u, theUID, sID, sBid, fn, bid2id(r.t.name), bidOf(r.t.name), 0, theIP, nil)
+			_, _, _, err := ptt.CrossPost(u, uidOf(u), sID, sBid, fn, bid2id(r.t.name), bidOf(r.t.name), 0, theIP, nil)
 			return errClass(err)
 		}
 		return "bad-op"
@@ -1107,6 +1131,71 @@ func execFriends(line, op, kind string, steps []fstep) {
 	}
 }
 
+// ---- histories on one article -------------------------------------------------------------------------------
+
+func execThread(line, ao string, at int32, steps []string) {
+	r := baseRow()
+	r.s.attr = aCPLOG
+	r.a.modified = at
+	if ao == "other" {
+		r.a.entOwner = "CodingMan"
+	}
+	keepFriends = false
+	materialise(r, 0, true)
+	cache.Shm.Shm.CooldownTime[0], cache.Shm.Shm.CooldownTime[1] = 0, 0
+	var outs []string
+	type tj struct {
+		step, res, trace string
+		fl               int32
+	}
+	var tries []tj
+	for _, st := range steps {
+		rr := r
+		op := ""
+		switch st {
+		case "R":
+			op, rr.id = "recommend", "CodingMan"
+		case "C":
+			op, rr.id = "crosspost", "CodingMan"
+		case "E":
+			op, rr.id, rr.ul = "editpost", "SYSOP", r.ul|pSYSOP
+		case "Ta":
+			op, rr.uf = "editpost", 1000000000
+		case "Tb":
+			op, rr.uf = "editpost", artTime
+		case "Tl":
+			op, rr.uf = "editpost", 1550000000
+		}
+		u := makeUser(rr)
+		before := snapshot()
+		res := callOp(op, rr, u)
+		trace := "same"
+		if snapshot() != before {
+			trace = "changed"
+		}
+		outs = append(outs, st[:1]+":"+res+":"+trace)
+		if st[0] == 'T' {
+			tries = append(tries, tj{st, res, trace, rr.uf})
+		}
+	}
+	i := run.Op(line, strings.Join(outs, ","), "thread", true)
+	// P̂: whatever happened to the article in between, only its author (the account that already existed when the
+	// article was created under its id) may edit it
+	for n, t := range tries {
+		if t.res == "PANIC" || t.res == "TIMEOUT" {
+			run.Fail(i, "crash:editpost", fmt.Sprintf("edit attempt %d (%s): %s (%s)", n+1, t.step, t.res, hx.LastPanic))
+			continue
+		}
+		author := ao == "self" && int64(t.fl) <= artTime
+		if t.res == "ok" && !author {
+			run.Fail(i, "missing:editpost:owner", fmt.Sprintf("edit attempt %d (%s) accepted although the account (FirstLogin %d) is not the author of the article created at %d under the id %q", n+1, t.step, t.fl, artTime, r.a.entOwner))
+		}
+		if t.res != "ok" && t.res != "err:lookup" && t.trace == "changed" {
+			run.Fail(i, "refused-sideeffect:editpost", fmt.Sprintf("edit attempt %d refused (%s) but left a trace", n+1, t.res))
+		}
+	}
+}
+
 func execLine(line string) {
 	ws := strings.Fields(line)
 	bad := func() { run.Op(line, "bad-op", "bad-op", false) }
@@ -1120,6 +1209,30 @@ func execLine(line string) {
 		return
 	}
 	switch {
+	case ws[1] == "thread":
+		if len(ws) != 5 {
+			bad()
+			return
+		}
+		ao, ok1 := kv("ao", ws[2])
+		atS, ok2 := kv("at", ws[3])
+		at, ok3 := pI32(atS)
+		steps := strings.Split(ws[4], "/")
+		nT := 0
+		for _, st := range steps {
+			switch st {
+			case "R", "C", "E":
+			case "Ta", "Tb", "Tl":
+				nT++
+			default:
+				ok1 = false
+			}
+		}
+		if !ok1 || !ok2 || !ok3 || (ao != "self" && ao != "other") || len(steps) > 16 || nT == 0 {
+			bad()
+			return
+		}
+		execThread(line, ao, at, steps)
 	case ws[1] == "friends":
 		if len(ws) != 5 || !ops[ws[2]] || (ws[3] != "restricted" && ws[3] != "hidden") {
 			bad()
